@@ -37,3 +37,28 @@ Theorem C07_fragment_idle_means_nothing_pending : forall cfg k m,
   KSys cfg k m -> k_is_idle k = true -> km_pending m = [].
 Proof. exact idle_means_nothing_pending. Qed.
 Print Assumptions C07_fragment_idle_means_nothing_pending.
+
+(* ---- the whole action grammar, every configuration without defoverrides (Proofs/C07Kanata.v) ----
+   IdleK: the conjuncts Kanata::is_idle reads (nothing queued / waiting / one-shot / sequence / macro / scroll / move / replay /
+   caps-word / pending virtual key, no chords v2) in the form reachable after a millisecond in which nothing happened: the OS key
+   list is up to date and no unmod / unshift key is held.  In such a state the model's is_idle holds, one millisecond emits nothing
+   and leads to such a state again with the layout only aged; so do n milliseconds.  What a sleeping loop skips can therefore
+   reach the output only through the ages of the key history, which `can_block` guards with the largest key-timing threshold *)
+From KV Require Import Proofs.C07Kanata.
+Theorem C07_kanata_idle_tick_is_silent : forall cfg k,
+  kc_overrides cfg = [] -> kc_seq_always_on cfg = false -> IdleK k ->
+  exists k', k_tick cfg k = Ok (k', []) /\ IdleK k' /\ k_layout k' = aged (k_layout k) /\ k_prev_keys k' = k_prev_keys k /\
+             k_seq k' = k_seq k /\ k_ticks_since_idle k' = k_ticks_since_idle k /\ k_record k' = tick_record (k_record k).
+Proof. exact idle_tick_is_silent. Qed.
+Print Assumptions C07_kanata_idle_tick_is_silent.
+
+Theorem C07_kanata_idle_ticks_are_silent : forall cfg, kc_overrides cfg = [] -> kc_seq_always_on cfg = false ->
+  forall n k, IdleK k ->
+  exists k', k_ticks cfg n k = Ok (k', []) /\ IdleK k' /\ k_layout k' = aged_n n (k_layout k) /\ k_prev_keys k' = k_prev_keys k /\
+             k_seq k' = k_seq k /\ k_ticks_since_idle k' = k_ticks_since_idle k.
+Proof. exact idle_ticks_are_silent. Qed.
+Print Assumptions C07_kanata_idle_ticks_are_silent.
+
+Theorem C07_idle_state_is_idle : forall k, IdleK k -> k_live_reload_requested k = false -> k_is_idle k = true.
+Proof. exact idlek_is_idle. Qed.
+Print Assumptions C07_idle_state_is_idle.
